@@ -15,15 +15,17 @@ import (
 
 type C16Case struct {
 	Script
-	State      string `json:"state"`                 // waiting | logged | afterlogout
-	Type       string `json:"type"`                  // MsgType of the invalid message
-	Damage     string `json:"damage"`                // checksum | bodylength | field | seqtext | seqtext+checksum | noseq+checksum | noseq+bodylength | state
-	BadStep    int    `json:"badstep"`               // index of the invalid message in Steps
-	ResendStep int    `json:"resend_step,omitempty"` // index of a later ResendRequest 1..0 (0: none)
+	State        string `json:"state"` // waiting | logged | afterlogout
+	Type         string `json:"type"`  // MsgType of the invalid message
+	CounterFails bool   `json:"counter_fails,omitempty"`
+	ReadsFail    bool   `json:"reads_fail,omitempty"`
+	Damage       string `json:"damage"`                // checksum | bodylength | field | seqtext | seqtext+checksum | noseq+checksum | noseq+bodylength | state
+	BadStep      int    `json:"badstep"`               // index of the invalid message in Steps
+	ResendStep   int    `json:"resend_step,omitempty"` // index of a later ResendRequest 1..0 (0: none)
 }
 
 var c16Types = []string{rig.TLogon, rig.TLogout, rig.THeartbeat, rig.TTestRequest, rig.TResendRequest}
-var c16Damages = []string{"checksum", "bodylength", "field", "seqtext", "seqtext+checksum", "noseq+checksum", "noseq+bodylength", "state", "checksum-spelling", "bodylength-extreme"}
+var c16Damages = []string{"checksum", "bodylength", "field", "seqtext", "seqtext+checksum", "noseq+checksum", "noseq+bodylength", "state", "checksum-spelling", "bodylength-extreme", "leading-field", "trailing-field"}
 var c16States = []string{"waiting", "logged", "afterlogout", "probing"} // probing: logged on, the session's own TestRequest is unanswered
 
 func genC16(t *rapid.T) *C16Case {
@@ -67,6 +69,14 @@ func genC16(t *rapid.T) *C16Case {
 		// a refused/ignored message first
 		add(rig.Step{Op: "in", In: g.app()})
 	}
+	if c.State == "logged" && rapid.IntRange(0, 5).Draw(t, "counterFails") == 0 {
+		// the counter store stops recording numbers right before the invalid message arrives (not while the
+		// session is probing: the session's number-recording all-types handler then refuses the message, the
+		// handlers behind it - the one that ends the probing among them - are skipped, and the unmodified
+		// library legitimately stays in the probing state)
+		add(rig.Step{Op: "counter-fails"})
+		c.CounterFails = true
+	}
 	// the invalid message
 	var m *rig.InMsg
 	switch c.Type {
@@ -80,6 +90,14 @@ func genC16(t *rapid.T) *C16Case {
 		m = g.testRequest("probe")
 	default:
 		m = g.resend(1, 1)
+		if c.State != "logged" && c.State != "probing" && rapid.Bool().Draw(t, "openEnded") {
+			// an open-ended request from a peer that is not logged on, while the counter store cannot be read
+			m = g.resend(1, 0)
+			if rapid.Bool().Draw(t, "readsFail") {
+				add(rig.Step{Op: "counter-reads-fail"})
+				c.ReadsFail = true
+			}
+		}
 	}
 	loggedOn := c.State == "logged" || c.State == "probing"
 	permitted := loggedOn != (c.Type == rig.TLogon) // valid Logon only when not logged on; others only when logged on
@@ -88,7 +106,7 @@ func genC16(t *rapid.T) *C16Case {
 	}
 	by := rapid.IntRange(0, 300).Draw(t, "by")
 	switch c.Damage {
-	case "checksum", "bodylength", "checksum-spelling", "bodylength-extreme":
+	case "checksum", "bodylength", "checksum-spelling", "bodylength-extreme", "leading-field", "trailing-field":
 		m.Damage, m.DamageBy = c.Damage, by
 	case "field":
 		// a numeric field that is not a number: header LastMsgSeqNumProcessed, or the type's own
@@ -143,6 +161,9 @@ func genC16(t *rapid.T) *C16Case {
 	m.Note = c.Damage
 	c.BadStep = len(c.Steps)
 	add(rig.Step{Op: "in", In: m})
+	if c.ReadsFail {
+		add(rig.Step{Op: "counter-recovers"})
+	}
 	// valid traffic that follows
 	if loggedOn {
 		add(rig.Step{Op: "in", In: g.testRequest("after")})
@@ -207,7 +228,7 @@ func checkC16(c *C16Case, rec *evid.Rec) (vs []pbt.Violation) {
 			if !found {
 				vs = append(vs, pbt.V(key("reject-not-resent"), "a valid ResendRequest 1..0 after the invalid %s (%s) is not processed normally: the Reject sent under number %d is not retransmitted:%s", c.Type, c.Damage, rejectSeq, showOut(res)))
 			}
-		case i == c.BadStep+1:
+		case i == c.BadStep+1+b2i(c.ReadsFail): // (the step in between lets the store recover)
 			// normal treatment of the next valid message
 			if !res.Delivered {
 				break
@@ -238,6 +259,12 @@ func checkC16(c *C16Case, rec *evid.Rec) (vs []pbt.Violation) {
 	}
 	rec.Case(evid.FPs(fmt.Sprintf("%s|%s|%s|%s|%d", c.Cfg.Role, c.Type, c.Damage, c.State, c.BadStep)), followedUp)
 	rec.Hist("cell:" + c.Type + ":" + c.Damage + ":" + c.State)
+	if c.CounterFails {
+		rec.Hist("counter-store-fails-before-the-invalid-message")
+	}
+	if c.ReadsFail {
+		rec.Hist("counter-store-unreadable-when-the-invalid-message-arrives")
+	}
 	rec.Hist("role:" + c.Cfg.Role)
 	if rec.WantSample() {
 		rec.Sample(map[string]any{"state": c.State, "type": c.Type, "damage": c.Damage, "history": showScript(&c.Script)})
